@@ -682,6 +682,9 @@ class Evaluator:
                 base = fr.lookup(node.id)
                 if base is None:
                     base = self.eval(fr, node)
+                old_val = base
+                for k_ in keys:
+                    old_val = getitem(old_val, k_)
                 new = self._store_path(base, keys, v)
                 if node.id in fr.env.vars or fr.parent is None:
                     fr.env.vars[node.id] = new
@@ -691,7 +694,7 @@ class Evaluator:
                     while f is not None and node.id not in f.env.vars:
                         f = f.parent
                     (f or fr).env.vars[node.id] = new
-                self.emit(fr, "store", line, (node.id, tuple(keys), v, aug))
+                self.emit(fr, "store", line, (node.id, tuple(keys), v, aug, old_val, base))
             else:
                 base = self.eval(fr, node)
                 self.emit(fr, "store_expr", line, (base, tuple(keys), v, aug))
